@@ -48,7 +48,9 @@ pub fn uist_order_of(v: &Value) -> uv::Order {
             _ => {}
         }
     }
-    uv::Order { order_id: None, order_type: uist_type_of(&t), symbol: sym, shares, price }
+    // a deserialised order may arrive with an id already set (the exchange must overwrite it)
+    let preset = v.get("order_id").and_then(|x| x.as_u64());
+    uv::Order { order_id: preset, order_type: uist_type_of(&t), symbol: sym, shares, price }
 }
 
 pub fn uist_order_json(o: &uv::Order) -> Value {
